@@ -67,7 +67,14 @@ def gen_case(rng):
         op = rng.choice(["read", "read", "wconst", "wvar", "wexpr", "iadd",
                          "isub", "wreg", "wcopy"])
         val = rng.getrandbits(8 * size)
-        if rng.random() < 0.3:
+        if size == 8 and rng.random() < 0.3:
+            # constants around the 32-bit immediate range, as they are and
+            # as they look after a byte swap
+            val = rng.choice([0x80000000, 0xffffffff, 0xdeadbeef,
+                              0x90000000, 0x100000000, 0x7fffffff,
+                              0xefbeadde00000000, 0x0000008000000000,
+                              0xffffffff00000000])
+        elif rng.random() < 0.3:
             val = rng.choice([0, 1, (1 << (8 * size)) - 1,
                               1 << (8 * size - 1), 0x1234567890abcdef
                               & ((1 << (8 * size)) - 1)])
